@@ -295,7 +295,14 @@ class StubClient:
         return True
 
 
-async def mqtt_episode(loop, pattern, forced, rnd) -> dict:
+class StubMsg:
+    """an MQTT message as the client library hands it to on_message"""
+
+    def __init__(self, topic: str, payload: bytes) -> None:
+        self.topic, self.payload, self.timestamp = topic, payload, 0.0
+
+
+async def mqtt_episode(loop, pattern, forced, rnd, status=()) -> dict:
     import ramses_tx.transport as T
     from ramses_tx.protocol import protocol_factory
 
@@ -307,10 +314,15 @@ async def mqtt_episode(loop, pattern, forced, rnd) -> dict:
         tr = T.MqttTransport("mqtt://user:pw@localhost:1883/RAMSES/GATEWAY", proto, loop=loop)
     finally:
         T.mqtt.Client = real_client
-    tr._topic_pub = "RAMSES/GATEWAY/18:000730/tx"
+    # the gateway's topic reports `online`: the transport's own connection path (subscribe, connection_made) runs
+    tr._on_message(None, None, StubMsg("RAMSES/GATEWAY/18:000730", b"online"))
+    await asyncio.sleep(0)
     t0 = loop.time()
     pubs: list = []
     tr._publish = lambda data: pubs.append((loop.time(), data))
+    # ... and may report it again at any time (the gateway rebooted; the broker re-delivered the retained status)
+    for off, what in status:
+        loop.call_at(t0 + off / 1e6, tr._on_message, None, None, StubMsg("RAMSES/GATEWAY/18:000730", what.encode()))
     frames = [frame_for(i, nb, rnd) for i, (_, nb) in enumerate(pattern)]
     offers: list = []
     errors: list = []
@@ -337,10 +349,10 @@ async def mqtt_episode(loop, pattern, forced, rnd) -> dict:
             "loop_errors": list(loop.errors), "tokens": (tr._num_tokens, tr._max_tokens)}
 
 
-def score_mqtt(chk: Check, pattern, forced, res, consts_model) -> None:
+def score_mqtt(chk: Check, pattern, forced, res, consts_model, status=()) -> None:
     t0 = res["t0"]
     frames = res["frames"]
-    rep = {"op": "mqtt", "pattern": pattern, "forced": forced}
+    rep = {"op": "mqtt", "pattern": pattern, "forced": forced, "status": list(status)}
     pub_t: dict[int, list[float]] = {}
     order: list[int] = []
     for t, data in res["pubs"]:
@@ -567,14 +579,15 @@ def run_port(chk: Check, D: Diff, pattern, rnd, consts) -> None:
     score_port(chk, D, pattern, res, consts)
 
 
-def run_mqtt(chk: Check, pattern, forced, rnd, consts) -> None:
+def run_mqtt(chk: Check, pattern, forced, rnd, consts, status=()) -> None:
     async def body(loop):
-        return await mqtt_episode(loop, pattern, forced, rnd)
+        return await mqtt_episode(loop, pattern, forced, rnd, status)
 
     res, _ = vloop.run(body)
     chk.evaluations += 1
-    chk.nontrivial.add(("mqtt", tuple(pattern), tuple(forced)))
-    score_mqtt(chk, pattern, forced, res, consts)
+    chk.nontrivial.add(("mqtt", tuple(pattern), tuple(forced), tuple(status)))
+    chk.count("mqtt.status_messages", len(status))
+    score_mqtt(chk, pattern, forced, res, consts, status)
 
 
 def run(chk: Check) -> None:
@@ -615,7 +628,18 @@ def run(chk: Check) -> None:
                 pat.append((t, rnd.choice((1, 24, 48))))
         p_forced = rnd.choice((0.0, 0.0, 0.1, 0.5))
         forced = [rnd.random() < p_forced for _ in pat]
-        run_mqtt(chk, pat, forced, rnd, consts)
+        status = []
+        if k % 3 == 0 and pat:
+            # the topic reports online again (after an offline, or just so) while frames are being offered
+            span = max(o for o, _ in pat) + 1
+            for _ in range(rnd.randint(1, 4)):
+                t = rnd.randrange(0, span)
+                if rnd.random() < 0.4:
+                    status.append((t, "offline"))
+                    t += rnd.choice((1000, 500_000, 3_000_000))
+                status.append((t, "online"))
+            status.sort()
+        run_mqtt(chk, pat, forced, rnd, consts, status)
     # sync-cycle avoidance: announcements heard and writes offered around their windows (a zero countdown, an announcement
     # whose time has passed, three controllers at once)
     sync_corpus = [
@@ -644,7 +668,7 @@ def replay(chk: Check, path: str) -> int:
     if r.get("op") == "port":
         run_port(chk, D, [tuple(x) for x in r["pattern"]], rnd, consts)
     elif r.get("op") == "mqtt":
-        run_mqtt(chk, [tuple(x) for x in r["pattern"]], r["forced"], rnd, consts)
+        run_mqtt(chk, [tuple(x) for x in r["pattern"]], r["forced"], rnd, consts, [tuple(x) for x in r.get("status", [])])
     elif r.get("op") == "sync":
         run_sync(chk, D, [tuple(x) for x in r["events"]])
         score_sync_model(chk, D)
